@@ -922,7 +922,6 @@ def _identity(x):
 @_formats('type-reference-tail -> type-word "." type-reference-tail')
 @_formats("field-reference -> snake-reference field-reference-tail*")
 @_formats('abbreviation -> "(" snake-word ")"')
-@_formats("additive-expression-right -> additive-operator times-expression")
 @_formats(
     "additive-expression-right* -> additive-expression-right"
     "                              additive-expression-right*"
@@ -1011,6 +1010,15 @@ def _identity(x):
 def _concatenate(*elements):
     """Concatenates all arguments with no delimiters."""
     return "".join(elements)
+
+
+@_formats("additive-expression-right -> additive-operator times-expression")
+def _additive_expression_right(operator, expression):
+    """Concatenates a binary +/- with its right operand."""
+    # "a - -1" must not become "a--1": "--" starts a documentation token.
+    if operator == "-" and expression.startswith("-"):
+        return operator + " " + expression
+    return operator + expression
 
 
 @_formats("equality-expression-right -> equality-operator additive-expression")
